@@ -1,0 +1,13 @@
+//go:build verif
+
+// Contracts for the exovc verifier (/verif). Comment-only: with the tag off this file is not part
+// of the package, with the tag on it declares nothing.
+package utils
+
+// C06: the order handed to sort.Slice is power descending, ties broken by ascending operator address
+//@ func SortByPower$1
+//@   requires 0 <= i && i < len(indices) && 0 <= j && j < len(indices)
+//@   requires 0 <= indices[i] && indices[i] < len(powers) && indices[i] < len(operatorAddrs) && 0 <= indices[j] && indices[j] < len(powers) && indices[j] < len(operatorAddrs)
+//@   ensures[C06.sbp.order] result == (powers[indices[i]] > powers[indices[j]] ||
+//@        (powers[indices[i]] == powers[indices[j]] && operatorAddrs[indices[i]] != operatorAddrs[indices[j]] &&
+//@         bytes_lt(operatorAddrs[indices[i]], operatorAddrs[indices[j]])))
